@@ -26,14 +26,16 @@ META = {
     "bounds": {
         "quick": {"num_threads": "{2,3,4,5,7,8,11,16} (each concrete)", "N": "unbounded symbolic integer >= 1",
                   "target_block_size": "sign symbolic; negative values from {-1,-2,-3,-7,-128,-1024}",
-                  "kernel data": "N<=6 rows, k<=4, symbolic entries"},
+                  "kernel data": "N<=6 rows, k<=4, symbolic entries",
+                  "operators from terms": "4-5 sites, symmetries None / Z2 / U1 / U1U1 (every sector with D >= 2), world_size in {2,3,5,D+1}: "
+                                          "matvec kernels on a symbolic vector, COO builds as multisets"},
         "thorough": {"num_threads": "2..48", "N": "unbounded symbolic integer >= 1",
                      "target_block_size": "negative values from a 10-element list", "kernel data": "N<=8, k<=5"},
     },
     "outside": ["OS scheduler / real interleavings (replaced by write-disjointness)",
                 "numba's compilation of the kernels (the Python source is what is executed)",
                 "per-thread RNG streams of quimb/gen/rand.py (statistical)",
-                "operator/builder world_rank striding (covered under C19's kernels only)"],
+                "MPI launching of the operator builders (the world_rank / world_size striding itself is covered by operator_parallel)"],
     "assumptions": ["float-typed block counts are used as integers the way numba truncates them",
                     "`complex(a, b)` on symbolic scalars is modelled as a + i*b"],
 }
@@ -340,3 +342,87 @@ def par_reduce_matches_reduce(mk, n, k):
     mats = [mk.array(f"M{i}", (2, 2), "cplx") for i in range(n)]
     f = lambda a, b: a.dot(b)
     mk.eq(f"par_reduce n={n} k={k}", qc.par_reduce(f, mats, num_threads=k), functools.reduce(f, mats))
+
+
+# ---------------------------------------------------------------------- operators built from terms
+
+def _term_models():
+    import quimb.operator as qop
+    out = {}
+    hs = qop.HilbertSpace(4)
+    H = qop.SparseOperatorBuilder(hilbert_space=hs)
+    for i in range(3):
+        H += 0.5 + 0.25 * i, ("+", i), ("-", i + 1)
+        H += 0.5 + 0.25 * i, ("-", i), ("+", i + 1)
+        H += 0.75 - 0.5 * i, ("z", i), ("z", i + 1)
+    H += 0.3, ("z", 0)
+    out["hop4"] = H
+    # hopping only inside the two species blocks (sites 0-1 | 2-3), interaction across: conserves U1 x U1
+    G = qop.SparseOperatorBuilder(hilbert_space=qop.HilbertSpace(4))
+    for i in (0, 2):
+        G += 0.5 + 0.25 * i, ("+", i), ("-", i + 1)
+        G += 0.5 + 0.25 * i, ("-", i), ("+", i + 1)
+    for i in range(3):
+        G += 0.75 - 0.5 * i, ("z", i), ("z", i + 1)
+    G += 0.3, ("z", 3)
+    out["blocks4"] = G
+    return out
+
+
+_OP = [{"symmetry": s, "W": W, "_tiers": ("quick", "thorough") if W in (2, 3) else ("thorough",)}
+       for s in ("None", "Z2", "U1", "U1U1") for W in (2, 3, 5, 99)]
+
+
+@obligation(PROP, params=_OP, timeout_s=300)
+def operator_parallel(mk, symmetry, W):
+    """application / construction of an operator built from terms, split over world_size workers by
+    world_rank striding: the partial results add up to the serial one (symbolic input vector; the COO
+    pieces form the same multiset), for every sector"""
+    import quimb.operator as qop
+    from quimb.operator import configcore as cc
+    mk.encodes(cc.matvec_numba, cc.matvec_nosymm, cc.matvec_z2, cc.matvec_u1, cc.matvec_u1u1, cc.build_coo_numba_core,
+               qop.SparseOperatorBuilder.matvec, qop.SparseOperatorBuilder.build_coo_data)
+    H = _term_models()["blocks4" if symmetry == "U1U1" else "hop4"]
+    n = 4
+    if symmetry == "None":
+        sectors = [None]
+    elif symmetry == "Z2":
+        sectors = [0, 1]
+    elif symmetry == "U1":
+        sectors = [1, 2, 3]
+    else:
+        sectors = [((2, 1), (2, 1)), ((2, 1), (2, 0)), ((2, 2), (2, 1))]
+    for sec in sectors:
+        sym = None if symmetry == "None" else symmetry
+        sector_nb, symmetry_nb = H.hilbert_space.get_sector_numba(sector=sec, symmetry=sym)
+        cmap = H.get_coupling_map(dtype="float64", blocked=symmetry_nb == 3)
+        D = H.hilbert_space.get_size(sector=sec, symmetry=sym) if hasattr(H.hilbert_space, "get_size") else None
+        if D is None:
+            D = H.build_dense(sector=sec, symmetry=sym).shape[0]
+        Wn = D + 1 if W == 99 else W
+        x = mk.array(f"x{sectors.index(sec)}", (D,), "real")
+        zero = (lambda: np.array([P.ZERO] * D, dtype=object)) if mk.sym else (lambda: np.zeros(D))
+        serial = zero()
+        cc.matvec_numba(x, serial, coupling_map=cmap, sector=sector_nb, symmetry=symmetry_nb)
+        tot = zero()
+        for r in range(Wn):
+            part = zero()
+            cc.matvec_numba(x, part, coupling_map=cmap, sector=sector_nb, symmetry=symmetry_nb, world_size=Wn, world_rank=r)
+            tot = tot + part
+        mk.eq(f"sector {sec}: sum over {Wn} ranks of the strided matvec == serial matvec", tot, serial)
+        # reference: the dense matrix of the builder (representation equality itself is C19's subject)
+        A = H.build_dense(sector=sec, symmetry=sym)
+        mk.eq(f"sector {sec}: serial matvec == dense matrix times x", serial, np.asarray(A).dot(x) if not mk.sym else
+              np.array([sum((float(A[i, j]) * x[j] for j in range(D) if A[i, j] != 0), P.ZERO) for i in range(D)], dtype=object))
+        # COO construction: the union of the strided pieces is the serial triple list (as a multiset)
+        kw = dict(coupling_map=cmap, sector=sector_nb, symmetry=symmetry_nb)
+        d0, r0, c0 = cc.build_coo_numba_core(**kw)
+        pieces = [cc.build_coo_numba_core(world_size=Wn, world_rank=r, **kw) for r in range(Wn)]
+        got = sorted((int(a), int(b), float(v)) for d_, r_, c_ in pieces for v, a, b in zip(d_, r_, c_))
+        mk.same(f"sector {sec}: COO pieces of {Wn} ranks == serial COO data", got, sorted((int(a), int(b), float(v)) for v, a, b in zip(d0, r0, c0)))
+        if not mk.sym:
+            xv = np.asarray(x, dtype=float)
+            mk.eq(f"sector {sec}: builder.matvec(parallel={min(Wn, 4)}) == serial", H.matvec(xv.copy(), sector=sec, symmetry=sym, parallel=min(Wn, 4)),
+                  H.matvec(xv.copy(), sector=sec, symmetry=sym))
+            sp = H.build_sparse_matrix(sector=sec, symmetry=sym, parallel=min(Wn, 4))
+            mk.eq(f"sector {sec}: build_sparse_matrix(parallel) == dense", np.asarray(sp.todense()), np.asarray(A))
